@@ -132,6 +132,10 @@ pub fn match_known<'a>(
         if let (Some(sub), Some(c)) = (&k.class_contains, &class) {
             return k.key == head && c.contains(sub.as_str());
         }
+        if let (Some(prefix), Some(suffix), Some(c)) = (&k.class_atom_prefix, &k.class_atom_suffix, &class) {
+            // both given: the (single-atom) class starts with the one and ends with the other
+            return k.key == head && c.starts_with(prefix.as_str()) && c.ends_with(suffix.as_str());
+        }
         if let (Some(suffix), Some(c)) = (&k.class_atom_suffix, &class) {
             return k.key == head && crate::model::class_atoms(c).iter().any(|a| a.ends_with(suffix.as_str())) || (k.key == head && c.ends_with(suffix.as_str()));
         }
